@@ -109,6 +109,12 @@ def _check_key(ctx, case, master, k, want_wt, want_account, want_change, want_in
 
 
 def run_case(ctx, case):
+    from props import wallet_util as _wu
+    with _wu.deterministic_gc():
+        return _run_case_inner(ctx, case)
+
+
+def _run_case_inner(ctx, case):
     import os
     from props import wallet_util as wu
     wu.quiet_logging()
